@@ -66,6 +66,7 @@ func verifHarnessC17() {
 	verifAssert(err == nil, "C17.open-err")
 	m := newVModel(len(kp.keys))
 	ops := vOpsFromMask(verifParam("ops"))
+	vPrefill(db, kp, m, "C17")
 	for step := 0; step < K; step++ {
 		db = vStep(db, opts, kp, m, ops, "C17")
 		vCheckStat(db, opts, m, "C17")
